@@ -6,6 +6,7 @@ CONSTANTS
   Dev_h13 = FALSE
   Dev_ownerAbsent = FALSE
   Dev_length = FALSE
+  Dev_tableCache = FALSE
   Emit = TRUE
-INVARIANTS AuthUserSound AuthUserComplete AuthOwnerSound AuthOwnerComplete KeyAgreement NoKeyWithoutAuth Plaintext Shapes ImplDictRefines ImplKeyRefines ImplItemRefines ImplOpens ImplRejects LengthAgreement ImplLengthRefines EmitInv
+INVARIANTS AuthUserSound AuthUserComplete AuthOwnerSound AuthOwnerComplete KeyAgreement NoKeyWithoutAuth Plaintext Shapes ImplDictRefines ImplKeyRefines ImplItemRefines ImplOpens ImplRejects LengthAgreement ImplLengthRefines ImplPrepRefines PrepMatters PrepIsFunction EmitInv
 CHECK_DEADLOCK FALSE
